@@ -128,6 +128,12 @@ func RunC17(c *Ctx) error {
 		return Harnessf("WORKLOAD-INVALID: generated code of workload grammar %s does not build: %s", id, oneLine(msg, 600))
 	}
 	c.Logf("built gocc and %d race-instrumented drivers (%d variants each, %d yield sites)", len(drvs.List), len(variants), len(drvs.SiteNames))
+	// Generated code with goroutines or channels of its own cannot be fully owned by
+	// the cooperative scheduler: fall back to real parallel goroutines (observation).
+	free := len(drvs.Census.GoStmts)+len(drvs.Census.ChanOps)+len(drvs.Census.Selects) > 0
+	if free {
+		c.Logf("generated code has %d go statements, %d channel operations, %d selects: tasks run as real goroutines (observation mode)", len(drvs.Census.GoStmts), len(drvs.Census.ChanOps), len(drvs.Census.Selects))
+	}
 	nJobs := 50
 	if c.Tier == "thorough" {
 		nJobs = 2500
@@ -150,6 +156,7 @@ func RunC17(c *Ctx) error {
 					job.Tasks = append(job.Tasks, harness.TaskSpec{Ops: pool.taskOps(r.Fork("t"))})
 				}
 				job.Schedule = c17Schedule(r, nt)
+				job.Free = free
 				jobs = append(jobs, job)
 			}
 		}
@@ -171,7 +178,7 @@ func RunC17(c *Ctx) error {
 		for _, v := range drv.Variants {
 			for k := 0; k < nCold; k++ {
 				nt := 2 + r.Intn(4)
-				job := harness.Job{ID: 0, Kind: "c17", Variant: v.Name, Cold: true, Knob: stackKnobs[r.Intn(len(stackKnobs))]}
+				job := harness.Job{ID: 0, Kind: "c17", Variant: v.Name, Cold: true, Free: free, Knob: stackKnobs[r.Intn(len(stackKnobs))]}
 				for t := 0; t < nt; t++ {
 					job.Tasks = append(job.Tasks, harness.TaskSpec{Ops: pool.taskOps(r.Fork("t"))})
 				}
@@ -221,6 +228,9 @@ func RunC17(c *Ctx) error {
 			switches += r.Switches
 			if r.Switches > 0 {
 				schedules[b.drv.Grammar.ID+"|"+job.Variant+"|"+r.TraceHash] = true
+			} else if free && len(job.Tasks) > 1 {
+				// observation mode: no schedule to hash; distinct by the plan itself
+				schedules[fmt.Sprintf("%s|%s|free|%d|%s", b.drv.Grammar.ID, job.Variant, ri, r.Digest)] = true
 			}
 			for _, s := range r.SwitchAt {
 				name := "start"
@@ -297,6 +307,8 @@ func RunC17(c *Ctx) error {
 		"race_reports":                        raceReports,
 		"grammars":                            len(grammars),
 		"variants":                            len(variants),
+		"observation_mode_real_goroutines":    free,
+		"census_generated_code":               map[string]interface{}{"go_statements": drvs.Census.GoStmts, "channel_ops": drvs.Census.ChanOps, "selects": drvs.Census.Selects, "sync_uses": drvs.Census.SyncUses},
 		"schedule_policies":                   "uniform choice at every yield; run-to-completion with 1-3 preemption points (PCT-style); uniform with one starved task",
 		"fault_kinds_fired":                   map[string]int{"preemption": switches},
 		"components":                          "real code: generated lexer/parser/errors/token built with -race (yield points at every function entry and loop head), Go runtime, race detector; replaced: goroutine scheduler (seeded cooperative; hand-offs hidden from the detector); stub: action callbacks, scanner for token-list inputs",
